@@ -126,3 +126,8 @@ pub fn same_vec<T: Sc>(a: &[T], b: &[T]) -> bool { a.len() == b.len() && a.iter(
 pub fn same_mat<T: Sc>(a: &Matrix<T>, b: &Matrix<T>) -> bool {
     a.rows() == b.rows() && a.cols() == b.cols() && (0..a.rows()).all(|i| (0..a.cols()).all(|j| a[(i, j)].same(&b[(i, j)])))
 }
+
+/// orders / lengths beyond the exhaustively covered small ones, straddling the thresholds a blocked, unrolled or chunked
+/// implementation would introduce (multiples of 4, 8, 16, 32 and their neighbours)
+pub const BIG: [usize; 14] = [11, 13, 15, 16, 17, 20, 24, 25, 31, 32, 33, 40, 48, 65];
+pub fn big(rng: &mut Rng, cap: usize) -> usize { loop { let n = BIG[rng.below(BIG.len())]; if n <= cap { return n; } } }
